@@ -290,11 +290,12 @@ class World:
         self.hist = History(self.mon)
         # model state
         self.writes: dict[int, list] = {k: [] for k in range(len(self.keys))}
-        self.timeline: dict[int, list] = {k: [(-1, self.initial.get(k, ABSENT), "initial")] for k in range(len(self.keys))}
+        self.timeline: dict[int, list] = {k: [(-1, self.initial.get(k, ABSENT), "initial", 0)] for k in range(len(self.keys))}
         self.owed: dict[int, object] = {}
         self.prev_cache = {lbl: {} for lbl, _ in self.stores}
         self.prov = {lbl: {} for lbl, _ in self.stores}
         self.prev_evictions = {lbl: 0 for lbl, _ in self.stores}
+        self.prev_writebacks = {lbl: 0 for lbl, _ in self.stores}
         self.done_queue: list = []
         self.inflight: dict[int, dict] = {}
         self.probes: dict[str, int] = {}
@@ -394,8 +395,8 @@ class World:
                 self.owed[k] = value
             gen = c.put(key, value)
         elif kind == "delete":
-            if self.wb:
-                self.owed.pop(k, None)
+            # (the owed value of k is released when the delete takes the entry out of the cache -- at invocation or at
+            # completion, whichever the implementation does -- see _check_owed; until then it is still owed)
             gen = c.delete(key)
         elif kind == "flush":
             gen = c.flush()
@@ -499,11 +500,52 @@ class World:
             v = get(key)
             tl = self.timeline[k]
             if tl[-1][1] != v:
-                tl.append((t, v, kind))
+                tl.append((t, v, kind, self.hist._stamp))
+
+    def _entry_rank(self, k, entry) -> int:
+        """Invocation stamp of the cache-API write whose effect a backing-store timeline entry is (-1: initial/unknown)."""
+        t, v, _kind, _stamp = entry
+        if v is not None:
+            for w in self.writes[k]:
+                if w["kind"] == "put" and w["value"] == v:
+                    return self._effect_rank(w)
+            return -1
+        ranks = [self._effect_rank(w) for w in self.writes[k] if w["kind"] == "delete" and w.get("t_ret") == t]
+        return max(ranks) if ranks else -1
+
+    def _effect_rank(self, w) -> int:
+        """Stamp at which a cache-API write takes effect: a write-back put when it is invoked (cache update), anything
+        that goes to the backing store when it returns.  Only used to *name* causes, never to judge."""
+        if w["kind"] == "put" and self.wb:
+            return w["inv"]
+        return w["ret"] if w["ret"] is not None else 1 << 60
+
+    def _backing_src(self, k, value) -> str:
+        """Name how `value` (a stale value read from the backing store) got there: `backing-written-by-<op kind>`, or
+        `backing-regressed-by-<op kind>` when the store had already held the effect of a *later* write before
+        this value was (re-)applied -- e.g. a flush write that was in flight for one write latency and landed
+        after a delete or an eviction write-back of a newer value."""
+        tl = self.timeline[k]
+        j = None
+        for i in range(len(tl) - 1, -1, -1):
+            if tl[i][1] == value:
+                j = i
+                break
+        if j is None:
+            return "backing-written-by-nobody"
+        kind = tl[j][2]
+        if value is not None and j > 0:
+            mine = self._entry_rank(k, tl[j])
+            landed = tl[j][3]
+            if any(self._entry_rank(k, tl[i]) > mine for i in range(j)) or any(
+                    w["kind"] == "delete" and w["ret"] is not None and mine < w["ret"] <= landed
+                    for w in self.writes[k]):  # (a delete of a key the store did not hold leaves no timeline entry)
+                return f"backing-regressed-by-{kind}"
+        return f"backing-written-by-{kind}"
 
     def _writer_of(self, k, value) -> str:
         """Kind of the operation during which `value` was last applied to the backing store."""
-        for _, v, kind in reversed(self.timeline[k]):
+        for _, v, kind, _s in reversed(self.timeline[k]):
             if v == value:
                 return kind
         return "nobody"
@@ -546,6 +588,11 @@ class World:
                     prov[k] = (v, how)
                     if how == "promote":
                         self.probe("probe.promotion")
+        wbk = store.stats.writebacks
+        if wbk != self.prev_writebacks[lbl]:
+            if kind != "flush" and store.stats.evictions != self.prev_evictions[lbl]:
+                self.probe("probe.dirty_eviction_written_back")
+            self.prev_writebacks[lbl] = wbk
         ev_now = store.stats.evictions
         if ev_now != self.prev_evictions[lbl]:
             self.probe("probe.eviction")
@@ -572,9 +619,9 @@ class World:
             if dirty is None:
                 dirty = set(c.get_dirty_keys())
             if not c.contains_cached(key):
-                if kind == "delete" and seg is not None and seg["key"] == k and seg["ret"] is not None:
-                    # a delete(k) returned in this delivery: it may discard the value of any put(k) that preceded or
-                    # overlapped it (the put was invoked before the delete returned), whichever moment it applies at
+                if kind == "delete" and seg is not None and seg["key"] == k:
+                    # a delete(k) ran in this delivery (its first or its last step): it may discard the value of any
+                    # put(k) that preceded or overlapped it, whichever moment the implementation applies it at
                     del self.owed[k]
                     continue
                 if kind in ("inval", "inval_all"):
@@ -609,6 +656,13 @@ class World:
                                 f"{self.backing.get_sync(key)!r} (during {kind}); no later flush will write it")
         if self.owed:
             self.probe("probe.dirty_pending")
+            if kind == "flush":
+                now = self.now_ns()
+                for k in self.owed:
+                    tl = self.timeline[k]
+                    if tl[-1][0] == now and tl[-1][2] == "flush" and tl[-1][1] != self.owed[k]:
+                        # a flush write of an older value just landed and the newer value is still cached and dirty
+                        self.probe("probe.flush_kept_redirtied_key")
 
     def _check_sttl_structure(self):
         c = self.cache
@@ -647,12 +701,14 @@ class World:
         if got in allowed:
             if rec["path"] == "miss" and got is not None:
                 self.probe("probe.miss_fill")
+                if self.fam == "cs" and self.cache._cache.get(self.keys[k], got) != got:
+                    self.probe("probe.fill_skipped_newer_entry")
             return
         known = {_wval(w) for w in self.writes[k]} | {self.initial.get(k, ABSENT)}
         what = "never-written" if got not in known else ("lost-write" if got is None else "stale-read")
         after = latest["kind"] if latest is not None else "initial"
         if rec.get("src") == "backing":
-            rec["src"] = f"backing-written-by-{self._writer_of(k, got)}"
+            rec["src"] = self._backing_src(k, got)
             if any(w["kind"] == "delete" and w["inv"] < rec["ret"] and (w["ret"] is None or w["ret"] > rec["inv"])
                    for w in self.writes[k]):
                 after += "+concurrent-delete"
@@ -676,7 +732,7 @@ class World:
             if got not in allowed:
                 dirty = key in self.cache.get_dirty_keys()
                 detail = "still-dirty" if dirty else ("not-cached" if not self.cache.contains_cached(key) else "clean-in-cache")
-                detail += f"-backing-written-by-{self._writer_of(k, got)}"
+                detail += "-" + self._backing_src(k, got)
                 raise Violation(
                     f"{P}/flush-incomplete/CachedStore/{detail}",
                     f"after flush() (invoked t={rec['t_inv']}ns, returned {rec['result']}) backing[{key}]={got!r} but the "
@@ -699,7 +755,9 @@ class World:
                                 f"(age {age}ns > hard_ttl {self.hard_ns}ns)")
             if path == "stale" and self.cache.is_refreshing(key):
                 self.probe("probe.sttl_refresh_in_flight")
-        elif path == "coalesced" and got is not None:
+        if path == "coalesced" and rec["t_ret"] - rec["t_inv"] > self.sc["lat"]["r"] * 1000:
+            self.probe("probe.sttl_coalesced_reader_refetched")
+        if path == "coalesced" and got is not None:
             e = self.cache._cache.get(key)
             if e is not None and e.value == got:
                 age = rec["t_inv"] - e.cached_at.nanoseconds
@@ -713,7 +771,7 @@ class World:
         lo = 0
         w = self._latest_completed(k, rec["inv"])
         if w is not None:
-            for i, (_, v, _k) in enumerate(tl):
+            for i, (_, v, _k, _s) in enumerate(tl):
                 if v == w["value"]:
                     lo = i
                     break
@@ -728,7 +786,7 @@ class World:
                 i_ttl = i
                 break
         lo = max(lo, i_ttl)
-        allowed = {v for _, v, _k in tl[lo:]}
+        allowed = {v for _, v, _k, _s in tl[lo:]}
         if got not in allowed:
             what = "lost-write" if got is None else "stale-read"
             bound = "after-put" if (w is not None and i_put >= i_ttl) else "beyond-hard-ttl"
